@@ -23,6 +23,7 @@ The region is resolved against the solved network inside `check` (regions()):
 Failure signatures: raised/<eq>/<exception site>/<cause>, voltage-differs/<scope>/<fact>, eq-pf-failed/..., original-changed/<eq>,
 bus-missing-in-equivalent/<eq>, returned-None/<eq>; <fact> is the first root-cause fact of facts() or "other".
 """
+import hashlib
 import math
 
 from hypothesis import strategies as st
@@ -159,12 +160,17 @@ def _tame(recipe, mode, eq_type):
 
 @st.composite
 def _case(draw, tier, mode=None):
+    region = {"seed": draw(st.integers(0, 40)), "radius": draw(st.integers(0, 2)),
+              "variant": draw(st.sampled_from(["inner", "outer"])), "give": draw(st.sampled_from(["one", "all"])),
+              "close": draw(st.sampled_from([True, True, False]))}
     if mode is None:
-        # sampled_from over a long weighted list is far from uniform in practice (late entries drawn ~10x too rarely):
-        # a Hypothesis-seeded Random picks the mode instead (deterministic for a given VERIF_SEED)
-        rnd = draw(st.randoms(use_true_random=False))
-        names = sorted(MODE_WEIGHTS)
-        mode = rnd.choices(names, weights=[MODE_WEIGHTS[m] for m in names])[0]
+        # sampled_from / integers follow Hypothesis' bias towards few "simple" values (late list entries were drawn ~10x too
+        # rarely, a third of the modes not at all in 150 draws): the mode is picked by the hash of 64 bits of a
+        # Hypothesis-seeded Random instead (deterministic for a given VERIF_SEED, replayable like any other draw)
+        names = sorted(MODE_WEIGHTS, key=lambda m: (m != "clean", m))
+        pool = [m for m in names for _ in range(MODE_WEIGHTS[m])]
+        bits = draw(st.randoms(use_true_random=False)).getrandbits(64)
+        mode = pool[int(hashlib.sha1(str(bits).encode()).hexdigest(), 16) % len(pool)]
     if mode in ("rei-mixed-bus", "rei-asymmetric-impedance", "rei-integrated-gens"):
         eq_type = "rei"
     elif mode in ("phase-shift", "detached-boundary"):
@@ -180,11 +186,11 @@ def _case(draw, tier, mode=None):
         if mode == "rei-integrated-gens":
             kw["gen_separate"] = False
         elif kw.get("gen_separate") is False:
-            kw["gen_separate"] = True           # known finding rei/integrated gens at several external buses
-    return {"recipe": recipe, "mode": mode, "seed": draw(st.integers(0, 40)), "radius": draw(st.integers(0, 2)),
-            "variant": draw(st.sampled_from(["inner", "outer"])), "give": draw(st.sampled_from(["one", "all"])),
-            "close": draw(st.sampled_from([True, True, False])), "prune": mode != "detached-boundary",
-            "eq_type": eq_type, "kw": kw}
+            kw["gen_separate"] = True           # known finding rei-gen-aggregated-from-several-gens
+    case = {"recipe": recipe, "mode": mode}
+    case.update(region)
+    case.update({"prune": mode != "detached-boundary", "eq_type": eq_type, "kw": kw})
+    return case
 
 
 def strategy(tier):
@@ -462,7 +468,9 @@ def _cause(net, reg, case, e):
         gen_like = len(_at(net, "ext_grid", E)) or len(_at(net, "xward", E))
         if gen_like and not (len(net.gen) and net.gen.bus.isin(E).any()):
             return "rei-kind-without-original-element/gen"
-        if len(_at(net, "motor", E)) and not (len(net.load) and net.load.bus.isin(E).any()):
+        mot = set(_at(net, "motor", E).bus.values)
+        if mot and (not (len(net.load) and net.load.bus.isin(E).any()) or
+                    (case["kw"].get("load_separate", False) and mot - set(net.load.bus.values))):
             return "rei-kind-without-original-element/load"
     if where == "ValueError@grid_equivalents/auxiliary.py:add_ext_grids_to_boundaries" and len(net.gen):
         # vm_pu of the auxiliary ext_grids: in-service gens at boundary buses vs. gens that are not a duplicate of ANY earlier gen
